@@ -82,8 +82,8 @@ Definition failed_ok (ft : fault) (es : list entry) (h : option hardstate) (old 
 
 (* one Save of state (d, a) with fault ft:
    reported  -> the state left behind reads like the log Fault.failed_log describes (first/last index, full scan, Term
-                and Entries at the boundaries), and saving the batch again gives the answer and the state of the
-                specification's Save;
+                and Entries at the boundaries), saving the batch again gives the answer and the state of the
+                specification's Save, and opening the directory again (the process died instead) reads like that log too;
    unreported-> the Save counts as done: now and after a reopen the store must read like the specification's result. *)
 Definition check_fault (v : variant) (P : params) (d : disk) (a : alog) (o : sop) (ft : fault) : bool :=
   match o with
@@ -96,6 +96,9 @@ Definition check_fault (v : variant) (P : params) (d : disk) (a : alog) (o : sop
         failed_ok ft es h a a1 && agree v P d1 a1
         && (disk_first d1 =? a_first a1) && (disk_last P d1 =? a_last a1)
         && (let '(d2, r2) := step_disk v P o d1 in result_eqb r2 ra && agree v P d2 a2)
+        (* the process dies instead of returning the error: the directory is opened again *)
+        && (let '(d3, r3) := step_disk v P Reopen d1 in
+            let '(a3, _) := step_spec Reopen (r_first r3) a1 in agree v P d3 a3)
       else
         agree v P d1 a2
         && (let '(d3, r3) := step_disk v P Reopen d1 in
